@@ -217,6 +217,37 @@ def table_worker(args):
     return res
 
 
+def observed_run(cfg, dbname, observe, maxpackets=250):
+    """an independent search on database `dbname`; with `observe`, after every insertion a few stored keys are looked up
+    (strategy handed back) while the search is still running. Returns (stored keys, verified labels, number of labels)."""
+    root, pack, _ = specrun.build(cfg)
+    hooks = []
+    db = logging_db(specrun.DBS[dbname], hooks)
+    s = CombinatorialSpecificationSearcher(root, pack, ruledb=db, expand_verified=cfg["expand_verified"])
+    specrun.quiet()
+    rnd = random.Random(cfg["seed"])
+
+    def look(d, _st, _en, _rule):
+        keys = sorted(set(d))
+        for key in rnd.sample(keys, min(3, len(keys))):
+            try:
+                (d.eqv_rule_to_strategy if key in d.eqv_rule_to_strategy else d.rule_to_strategy)[key]
+            except Exception:  # noqa: BLE001  (judged by strategies_back)
+                pass
+
+    if observe:
+        hooks.append(look)
+    try:
+        for _ in range(maxpackets):
+            wp = next(s.classqueue)
+            if s.expand_verified or not s.ruledb.is_verified(wp.label):
+                s._expand(s.classdb.get_class(wp.label), wp.label, wp.strategies, wp.inferral)
+    except StopIteration:
+        pass
+    n = len(s.classdb.label_to_info)
+    return set(db), [db.is_verified(l) for l in range(n)], n
+
+
 def word_worker(cfg):
     import signal
 
@@ -231,6 +262,18 @@ def word_worker(cfg):
         p.strategies_back()
         out["problems"] = p.problems
         out["events"] = p.events
+        # independent searches: the default database unobserved vs the memory-saving one with look-ups after every insertion
+        try:
+            ka, va, na = observed_run(cfg, "RuleDB", False)
+            kb, vb, nb = observed_run(cfg, "RuleDBForgetStrategy", True)
+            if ka != kb:
+                out["problems"].append(("stored-keys-differ-when-looked-up-during-the-search", f"{sorted(ka ^ kb)[:4]} ({na} vs {nb} labels)"))
+            elif va != vb:
+                out["problems"].append(("verified-labels-differ-when-looked-up-during-the-search", f"{va} vs {vb}"))
+        except speccheck.Timeout:
+            raise
+        except Exception as exc:  # noqa: BLE001
+            out["problems"].append(("observed-search-raises", specrun.exc_info(exc)))
         # end to end: both flavours find a specification (or both do not)
         res = []
         for dbname in ("RuleDB", "RuleDBForgetStrategy"):
